@@ -38,7 +38,16 @@ pub fn build_lattice(bits: u32, macro_payload: bool) -> Spreadsheet {
             add_styles(ws);
         }
         if has(1) {
-            add_ext_links(ws, if k == 0 { 8 } else { 3 }, &|i| format!("https://example.com/s{}/page{}?x={}", k, i, i * 7));
+            add_ext_links(ws, if k == 0 { 12 } else { 3 }, &|i| format!("https://example.com/s{}/page{}?x={}", k, i, i * 7));
+            // two more links laid out so that row-major order differs from the order of the A1 strings (AB1 < B2 as
+            // strings, B2 before AB1... and row 10+ in column G): the sheet XML and its .rels must still pair them
+            for (addr, n) in [("AB1", 101u32), ("B2", 102u32)] {
+                let c = ws.get_cell_mut(addr);
+                c.set_value_string(format!("link{}", n));
+                let mut h = Hyperlink::default();
+                h.set_url(format!("https://example.com/s{}/extra{}", k, n));
+                c.set_hyperlink(h);
+            }
         }
         if has(2) {
             add_int_links(ws, 2, &|i| format!("Sheet1!B{}", i + k as u32));
